@@ -114,7 +114,8 @@ func combineSigns(expr []token) []token {
 					break
 				}
 				if expr[i].val == "-" {
-					negativeFound = true
+					// an even number of minus signs cancels out
+					negativeFound = !negativeFound
 				}
 			}
 			if negativeFound {
